@@ -118,6 +118,7 @@ def default_dicts():
 
 def canonical_world():
     np.random.seed(12345)
+    np.set_printoptions(threshold=1000, edgeitems=3, precision=8, linewidth=75)
     for _, dct in default_dicts():
         dct.clear()
     CLOCK.reset()
@@ -353,6 +354,9 @@ class Sched:
     def client_main(self, cl):
         cl.go.wait()
         cl.go.clear()
+        if self.sc['world_seed'] % 5 == 0:
+            # this caller prints arrays tersely (numpy keeps the print options per thread / context; the library never sets them)
+            np.set_printoptions(threshold=2, edgeitems=1, precision=2)
         try:
             for k, spec in enumerate(cl.script):
                 mon = (lambda tag, cl=cl: self.point(cl, tag))
@@ -434,6 +438,7 @@ class Sched:
         elif k == 3:
             CLOCK.jump(float(self.rng.choice([-1e6, 3600.0, 1e9])))
             F('clock_jump')
+
         elif k == 4:
             done = [c for c in self.clients if c.kept]
             if done:
@@ -499,6 +504,8 @@ def generate(rng, prop, tier):
     n = [rng.choice([2, 2, 3, 3, 4, 5]) for _ in range(d)]
     if rng.random() < 0.12:
         n[rng.randrange(d)] = 1            # a singleton mode
+    elif rng.random() < 0.04:
+        n = [2] * rng.choice([7, 8])       # many short modes
     K = rng.choice([1, 2, 2, 3, 4])
     clients = []
     pool = []
@@ -599,6 +606,8 @@ def execute(sc):
         # ---- the interleaved, perturbed history
         np.random.seed(sc['world_seed'] % (1 << 31))
         CLOCK.reset()
+        if sc['world_seed'] % 5 == 0:
+            stats['fault.numpy_printoptions_changed'] = 1           # set by every client thread for itself, see client_main
         if sc.get('poison'):
             POISON[0] = 0xA5
             stats['fault.uninitialised_memory_poisoned'] = 1
@@ -653,10 +662,12 @@ def execute(sc):
         sys.stdout = old_out
         SCHED[0] = None
         POISON[0] = None
+        np.set_printoptions(threshold=1000, edgeitems=3, precision=8, linewidth=75)
     sample = {'n': sc['n'], 'clients': [[(x['entry'], x['seed_mode']) for x in scr] for scr in sc['clients']],
               'yield_points': s.steps, 'switches_inside_calls': s.switch_inside, 'perturbations': s.perturbed}
     h = [[r for r in c.results] + sorted(c.results2.items()) + sorted(c.results_rep.items()) for c in s.clients]
-    return {'violations': V, 'runs': runs, 'stats': stats, 'digest': dig(h, sched_dig, [v['oracle'] for v in V]),
+    env_digests = {k_: [v_[0], v_[2], v_[1]] for k_, v_ in refs.items()}       # per isolated call: digest, exception type, entry (compared between interpreters by the kernel)
+    return {'violations': V, 'runs': runs, 'stats': stats, 'env_digests': env_digests, 'digest': dig(h, sched_dig, [v['oracle'] for v in V]),
             'nontrivial': nontrivial, 'sim_time': CLOCK.advanced, 'sample': sample, 'interleavings': [sched_dig]}
 
 
